@@ -12,6 +12,7 @@ package c19
 // op lines (channels are named by the number of their LOCAL id `channel-<l>`):
 //   chan l r                          local channel-l is connected to the counterparty's channel-r
 //   seq l n                           the next send sequence of channel l becomes n (never decreases)
+//   migrate                           the transfer module's REAL MigrateDenomMetadata migration (metadata for every stored trace)
 //   meta l                            bank metadata exists for the aliased voucher of channel l (what the transfer
 //                                     module's InitGenesis / MigrateDenomMetadata write for every denom trace)
 //   fund a tok l amt                  tok F|N|U: bank coins; A: ERC-20 of the aliased base token + voucher liquidity on l
@@ -34,6 +35,7 @@ import (
 	sdkmath "cosmossdk.io/math"
 	sdk "github.com/cosmos/cosmos-sdk/types"
 	banktypes "github.com/cosmos/cosmos-sdk/x/bank/types"
+	ibctransferkeeper "github.com/cosmos/ibc-go/v8/modules/apps/transfer/keeper"
 	transfertypes "github.com/cosmos/ibc-go/v8/modules/apps/transfer/types"
 	clienttypes "github.com/cosmos/ibc-go/v8/modules/core/02-client/types"
 	channeltypes "github.com/cosmos/ibc-go/v8/modules/core/04-channel/types"
@@ -422,6 +424,18 @@ func (e *env) meta(l int) {
 	ch.meta = true
 	e.out.Emit(fmt.Sprintf("meta %d", l), "ok")
 	e.out.Count("meta")
+}
+
+// migrate: the REAL migration of the transfer module (consensus version 4 -> 5, run by an upgrade from ibc-go 7)
+func (e *env) migrate() {
+	if err := ibctransferkeeper.NewMigrator(e.s.App.IBCTransferKeeper).MigrateDenomMetadata(e.s.Ctx); err != nil {
+		panic(err)
+	}
+	for _, ch := range e.chans {
+		ch.meta = true
+	}
+	e.out.Emit("migrate", "ok")
+	e.out.Count("migrate")
 }
 
 // seqset: the channel's next send sequence jumps forward (as after many transfers)
@@ -867,6 +881,8 @@ func (e *env) exec(line string) {
 	n := func(i int) int { v, _ := strconv.Atoi(f[i]); return v }
 	n64 := func(i int) int64 { v, _ := strconv.ParseInt(f[i], 10, 64); return v }
 	switch {
+	case len(f) == 1 && f[0] == "migrate":
+		e.migrate()
 	case len(f) == 2 && f[0] == "meta":
 		e.meta(n(1))
 	case len(f) == 3 && f[0] == "seq":
@@ -1036,7 +1052,11 @@ func (e *env) generate(nops int) {
 			}
 			e.recv(l, tok, rk, 1+rng.Intn(4), amt, memos[rng.Intn(len(memos))], rng.Intn(nSenders))
 		case r == 12 && !e.chans[l].meta && rng.Intn(3) == 0:
-			e.meta(l)
+			if rng.Intn(4) == 0 {
+				e.migrate()
+			} else {
+				e.meta(l)
+			}
 		default:
 			// settle an in-flight packet; sometimes replay / duplicate an already settled or unknown one
 			var seq uint64 = uint64(1 + rng.Intn(6))
